@@ -1427,7 +1427,66 @@ def closecross(rng):
     return {"cfg": cfg, "ops": ops}
 
 
-FAMILIES = {"closecross": closecross, "dustflood": dustflood, "evreload": evreload, "cfgreload": cfgreload, "badonion": badonion, "inflightadd": inflightadd, "openshut": openshut, "windowlimit": windowlimit, "tampercs": tampercs, "fwdlate": fwdlate, "asyncsign": asyncsign, "skim": skim, "batchopen": batchopen, "discomplete": discomplete, "monbcast": monbcast, "staletwo": staletwo, "bigclaim": bigclaim, "dustclose": dustclose, "slots": slots, "asynccross": asynccross, "blockedjump": blockedjump, "feecross": feecross, "opendisc": opendisc, "chainsettle": chainsettle, "crosslimit": crosslimit, "evhold": evhold, "failwin": failwin, "fanin": fanin, "inflight": inflight, "holdcell": holdcell, "stalehold": stalehold}
+def pausetwice(rng):
+    """A - B - C.  What B holds for an in-flight monitor write of a channel (a fail-back / a forward / a finalized claim
+    made possible by the peer's revocation) must survive the channel being paused AGAIN before that write completes: a
+    second and third update of the same channel (claim_funds of another payment over it -- a preimage update --, a peer's
+    further messages already on the wire, a fee update) is handed over meanwhile, and the completions arrive in any order
+    (C09: once completions arrive exactly the held messages / actions are released -- none is lost)."""
+    ops = []
+    npay = 0
+    x = 1
+    side = rng.choice([0, 2])                  # the channel of B that is paused twice: B - side
+    other = 2 - side
+    # payments whose resolution at `side` B will hold: forwards from the other end through B (failed or claimed by `side`),
+    # and B's own payments to `side`
+    held = []
+    for _ in range(rng.choice([1, 1, 2])):
+        src = other if rng.random() < 0.7 else 1
+        ops.append({"op": "send", "from": src, "to": side, "amt": rng.choice(["big", "justabove", "dust"])})
+        held.append(npay); npay += 1
+    # payments B can claim over the same channel (B is the recipient), and payments from `side` through B
+    mine = []
+    for _ in range(rng.choice([1, 2, 2])):
+        ops.append({"op": "send", "from": side, "to": 1 if rng.random() < 0.75 else other, "amt": rng.choice(["big", "justabove"])})
+        mine.append(npay); npay += 1
+    ops.append({"op": "deliver_all"})
+    ops.append({"op": "forward", "node": 1})
+    ops.append({"op": "deliver_all"})
+    # `side` resolves the held ones; the dance runs up to (not including) the revocation that makes the removal irrevocable
+    for k in held:
+        ops.append({"op": rng.choice(["fail", "fail", "claim"]), "pay": k})
+    ops += [{"op": "deliver", "from": side, "to": 1}] * rng.choice([2, 3, 4])
+    ops += [{"op": "deliver", "from": 1, "to": side}] * 2
+    ops.append({"op": "persist_mode", "node": 1, "mode": "inprogress"})
+    ops += [{"op": "deliver", "from": side, "to": 1}] * rng.choice([1, 1, 2])      # the revocation: its write is in flight
+    # ... and the channel is paused again
+    for _ in range(rng.choice([1, 1, 2])):
+        r = rng.random()
+        if r < 0.6 and mine:
+            ops.append({"op": "claim" if rng.random() < 0.85 else "fail", "pay": mine.pop(0)})
+        elif r < 0.8:
+            ops.append({"op": "send", "from": side, "to": 1, "amt": "justabove"}); npay += 1
+            ops += [{"op": "deliver", "from": side, "to": 1}] * 2
+        else:
+            ops += [{"op": "deliver", "from": side, "to": 1}] * rng.choice([1, 2])
+    order = rng.random()
+    if order < 0.4:
+        ops.append({"op": "complete", "node": 1, "which": "newest"})
+        ops.append({"op": "complete", "node": 1, "which": "all"})
+    elif order < 0.8:
+        ops.append({"op": "complete", "node": 1, "which": "oldest"})
+        ops += _deliveries(rng, [(1, side), (side, 1), (1, other), (other, 1)], rng.randrange(0, 4))
+        ops.append({"op": "complete", "node": 1, "which": "all"})
+    else:
+        ops.append({"op": "complete", "node": 1, "which": "all"})
+    ops.append({"op": "forward", "node": 1})
+    ops += _deliveries(rng, [(1, side), (side, 1), (1, other), (other, 1)], rng.randrange(0, 8))
+    ops += _wind_down(npay, rng, [(0, 1), (1, 2)])
+    return {"cfg": _cfg(rng, 3), "ops": ops}
+
+
+FAMILIES = {"pausetwice": pausetwice, "closecross": closecross, "dustflood": dustflood, "evreload": evreload, "cfgreload": cfgreload, "badonion": badonion, "inflightadd": inflightadd, "openshut": openshut, "windowlimit": windowlimit, "tampercs": tampercs, "fwdlate": fwdlate, "asyncsign": asyncsign, "skim": skim, "batchopen": batchopen, "discomplete": discomplete, "monbcast": monbcast, "staletwo": staletwo, "bigclaim": bigclaim, "dustclose": dustclose, "slots": slots, "asynccross": asynccross, "blockedjump": blockedjump, "feecross": feecross, "opendisc": opendisc, "chainsettle": chainsettle, "crosslimit": crosslimit, "evhold": evhold, "failwin": failwin, "fanin": fanin, "inflight": inflight, "holdcell": holdcell, "stalehold": stalehold}
 
 
 def make(rng, family, count):
